@@ -84,6 +84,8 @@ def shards(tier, seed):
     jn = 4 if tier == 'quick' else 5
     for a in JS_ALPHA:
         out.append(('json', a, jn))
+    # documents nested far deeper than any parser recursion limit (still far below the in-memory threshold)
+    out.append(('deep', None, 20000 if tier == 'quick' else 45000))
     out.append(('qs', None, 5 if tier == 'quick' else 6))
     # seed extension: another byte joins the multipart alphabet (all strings <= 3 containing it)
     out.append(('mpx', bytes([[0, 9, 32, 0x80, 0x5c, 0x27, 0x2d, 0xc3][seed % 8]]), 3))
@@ -294,6 +296,17 @@ def work(spec):
                         app, seen = apps[64]
                         run(res, app, seen, body, ct, acc, framing, None, 64)
         core.add_sample(res, {'content_types': CTYPES})
+    elif kind == 'deep':
+        for opener, closer in ((b'[', b']'), (b'{"a":', b'}'), (b'[{"a":', b'}]'), (b'[[1],', b']')):
+            for depth in (10, 100, 900, 1100, 5000, n):
+                if depth * len(opener) > 100000:
+                    continue
+                for body in (opener * depth, opener * depth + b'1' + closer * depth, opener * depth + closer * depth):
+                    for acc in ('json', 'forms', 'params', 'body'):
+                        for framing in ('cl', 'chunked'):
+                            app, seen = apps[102400]
+                            run(res, app, seen, body, 'application/json', acc, framing, None, 102400)
+        core.add_sample(res, {'deep_nesting': [10, 100, 900, 1100, 5000, n]})
     elif kind == 'json':
         for i, body in enumerate(strings(JS_ALPHA, n, a)):
             for acc in ('json', 'forms'):
